@@ -149,7 +149,36 @@ U4 = universe("U4", 4, [
          "(h (p 1 2) (p 2 3))", "(h (p 2 1) (v 1))", "(h (p 1 2) (p 2 1))"],
    note="pre-inserted parents / grand-parents of the classes that get merged")
 
-ALL = {"U1": U1, "U2": U2, "U3": U3, "U4": U4}
+# U5 "two symmetric children": an e-node with a redundant slot whose children get symmetries, in
+# every temporal order (redundancy first, symmetry first, both children in the same class).
+HF4, HP4 = "(h (f 1 2) (f 3 4))", "(h (f 1 2) (p 3 4))"
+U5 = universe("U5", 5, [
+    (HF4, "(f3 1 3 4)"),          # slot 2 redundant in the class of h(f12, f34)
+    (F12, F21),                   # both children become symmetric at once
+    (HP4, "(f3 1 3 4)"),
+    (P12, P21),
+    (F12, P12),
+    (HF4, "(f 1 3)"),             # two redundant slots
+    (HF4, HP4),
+], base=["(h (f 1 2) (f 4 3))", "(h (f 2 1) (f 3 4))", "(g (h (f 1 2) (f 3 4)))"],
+   note="redundant slot + two symmetric children (determine_self_symmetries with several variants)")
+
+# U6 "analysis cascade": a class X = {h(S, W), g(g(g(S)))} whose datum improves TWICE during one
+# rebuild when S becomes small (first through the short path, later through the longer but
+# finally better one), with many parents of X that may be re-analysed in between.
+S5 = "(g (g (g (g (g d)))))"
+W4 = "(g (g (g (g c))))"
+XA, XB = "(h %s %s)" % (S5, W4), "(g (g (g %s)))" % S5
+U6 = universe("U6", 4, [
+    (XA, XB),
+    (S5, "c"),
+    (S5, "(v 1)"),
+    (XB, "(h (v 1) (v 2))"),
+], base=["(g %s)" % XB, "(h %s c)" % XB, "(h c %s)" % XB, "(h %s %s)" % (XB, XB), "(h %s d)" % XB, "(h d %s)" % XB,
+         "(g (g %s))" % XB, "(h (g %s) c)" % XB, "(lam 1 (h %s (v 1)))" % XB],
+   note="analysis data that change more than once per rebuild (modify queue, upward propagation)")
+
+ALL = {"U1": U1, "U2": U2, "U3": U3, "U4": U4, "U5": U5, "U6": U6}
 
 if __name__ == "__main__":
     out = os.path.dirname(os.path.abspath(__file__))
